@@ -9,6 +9,12 @@ CHECKS = {
  'C01': ('E1 state-graph / E3', 'exhaustive enumeration of the full configuration product (solver x dim x cost x start x box/mode x constraint x penalty x reducer), each run explored Step by Step with every iteration boundary judged against an objective rebuilt from the raw user functions',
          'The complete product of a finite configuration alphabet is executed on the real solvers (and each scipy-style wrapper once per configuration); at every iteration boundary the best point must be in the recorded call log with energy reducer(cost)+penalty recomputed by the harness, every member energy must equal the harness objective at that member, and the best must not be worse than the initial energy.',
          'constraints restricted to deterministic idempotent box-preserving ones (mechanically pre-checked); clip=False excluded; 5+1 cost functions; runs of 8 (quick) / 12 (thorough) iterations', '3/C01'),
+ 'C02': ('E1 state-graph + E2 choice-tree', 'explicit-state exploration of all op sequences (SetStrictRanges/SetConstraints interleaved with Step) per solver and (tight,clip) mode, special boxes, plus exhaustive enumeration of every random answer of the clip=False re-entry and of the initial-point generators',
+         'Every call the recorded cost function receives while a box is in force is checked against the box the harness knows to be current, over all histories <= depth 4/5 of a 6-op alphabet x 4 solvers x 7 range modes, over degenerate / one-sided / None / negative boxes, over every answer (within a deviation bound) of the random draws made by the randomising bounds constraint, and over every draw of SetRandomInitialPoints / SetInitialPoints.',
+         'DE under clip=False uses a seeded private generator; an exception raised while installing ranges is recorded, not judged; best-inside-box judged for configurations unchanged since before the first iteration', '3/C02'),
+ 'C08': ('E3 + E2 choice-tree', 'lock-step comparison with reference models over a complete grid (NM/Powell) and exhaustive enumeration of every answer of sample/randrange/random() for every DE strategy call (complete tree) and whole generations (deviation bound 2)',
+         'Nelder-Mead and Powell solvers are stepped iteration by iteration against independent reference implementations (textbook NM; direction-set loop around the same Brent search) over a cost x start x tolerance x maxiter grid with all NM branches and exact ties exercised, fmin/fmin_powell against scipy.optimize.fmin and the vendored scipy-0.6 routines; every DE trial is decoded from an encoded population under every scripted random answer and judged by the strategy definition; selection judged strictly.',
+         'random() answers from {0, CR, 0.999}; four *Bin strategies judged under either crossover rule (DESIGN section 5); Powell stop rule (gtol=2) differences recorded, not judged', '3/C08'),
  'C04': ('E1 state-graph', 'explicit-state exploration of all operation sequences up to a depth on real solver objects (replayed histories, canonical snapshots) against a list-based reference model of counters, monitors and callbacks',
          'Every history of length <= 4 (quick) / 5 (thorough) over a 10-operation alphabet (Step, Solve, SetEvaluationLimits(new), SetPenalty, SetConstraints, SetStrictRanges, SetEvaluationMonitor new/old, SetGenerationMonitor, Finalize) is executed on each base solver x cost x monitor kind, and after every operation the real call count, monitor contents, iteration count, callback log and energy history are compared with the harness reference model.',
          'iterations counted by wrapping the bound _Step on the instance; cost alphabet {sphere, steps, infwall}; in-process map; monotonicity judged per segment of unchanged objective (DESIGN section 5)', '3/C04'),
